@@ -66,6 +66,11 @@ def renderNetLine (i : Iface) : Bytes := padLeft 6 i.name ++ 58 :: renderCells i
 def renderNetDev (h1 h2 : Bytes) (ifs : List Iface) : Bytes :=
   unlines (h1 :: h2 :: ifs.map renderNetLine)
 
+/-- an interface name: non-empty and free of C-locale whitespace. A superset of what the
+    kernel's `dev_valid_name` accepts (which also rejects `/`, `:` and 0xa0): in particular
+    the ASCII separators 0x1c–0x1f and every byte ≥ 0x80 may occur anywhere in it. -/
+def KName (n : Bytes) : Prop := n ≠ [] ∧ ∀ c ∈ n, isWs c = false
+
 def netFieldNames : List String :=
   ["bytes_sent", "bytes_recv", "packets_sent", "packets_recv", "errin", "errout", "dropin", "dropout"]
 
